@@ -114,7 +114,7 @@ def run_case(case, tier):
         optset = rng.choice(("none", "-d", "params"))
     opts, desc, remove = pick_options(rng, recs, optset)
     text = pdbio.dump(recs)
-    run = obs.run_single(text, opts)
+    run = obs.run_single(text, opts, keep_mol=True)
     counts["pipeline_runs"] = 1
     desc.update(sources.describe(recs))
     desc["kind"] = case["kind"]
@@ -132,6 +132,27 @@ def run_case(case, tier):
         before = counts.get("text_nontrivial_groups", 0)
         totals.check_text(run.rec, run.text, None, remove, viol, counts)
         nontrivial = counts.get("text_nontrivial_groups", 0) > before
+    # the file written for one conformation (public propka.output.write_pka(..., conformation=name)) renders
+    # that conformation's groups - with -d these keep the swapped determinants
+    if run.mol is not None and (len(run.rec["names"]) > 1 or "-d" in opts or rng.random() < 0.3):
+        import os
+        import propka.output as po
+        for name in run.rec["names"][:3]:
+            path = os.path.join(util.worker_tmp(), "c02_conf_%s.pka" % name)
+            try:
+                po.write_pka(run.mol, run.mol.version.parameters, filename=path, conformation=name, verbose=False)
+                with open(path) as fh:
+                    ctext = fh.read()
+            except Exception as e:
+                viol.append({"cls": "per-conformation-file-raises", "msg": "write_pka(conformation=%r): %r" % (name, e)})
+                continue
+            nv = len(viol)
+            totals.check_text(run.rec, ctext, None, remove, viol, counts, conf=name)
+            for v in viol[nv:]:
+                v["cls"] = "per-conformation-file:" + v["cls"]
+                v["msg"] = "file written for %s: %s" % (name, v["msg"])
+            counts["per_conformation_files"] = counts.get("per_conformation_files", 0) + 1
+    run.mol = None
     # classes
     avr = run.rec["confs"]["AVR"]
     first = run.rec["confs"][run.rec["names"][0]]
